@@ -56,8 +56,8 @@ def valid(name, c, n, k, min_size):
     return all(c[i + 1] - c[i] >= min_size for i in range(k - 1))
 
 
-def check_one(rec, name, sc, X, n, k, min_size, oracle, cuts_rows):
-    cuts = np.array(cuts_rows, dtype=np.int64)
+def check_one(rec, name, sc, X, n, k, min_size, oracle, cuts_rows, dtype=np.int64):
+    cuts = np.array(cuts_rows, dtype=dtype)
     want_ok = all(valid(name, tuple(r), n, k, min_size) for r in cuts_rows)
     inp = {"scorer": name, "X": X, "cuts": cuts}
     try:
@@ -113,6 +113,12 @@ def run(tier="quick", seed=0, repo="/repo"):
             for c in itertools.product(box, repeat=k):
                 nt = check_one(rec, name, sc, X, n, k, min_size, oracle, [list(c)])
                 rec.case((name, n, c), nt, {"scorer": name, "n": n, "cuts": list(c)} if nt and valid(name, c, n, k, min_size) else None)
+                if min(c) >= 0 and (k <= 3 or p == 1):
+                    # the same tuple held in an UNSIGNED integer array (still "an integer array": differences of unsigned integers wrap
+                    # around instead of going negative, so a decreasing tuple must not slip through the ordering test)
+                    for dt in ((np.uint64, np.uint8) if k == 2 else (np.uint64,)):
+                        check_one(rec, name + f"[{np.dtype(dt).name}]", sc, X, n, k, min_size, oracle, [list(c)], dtype=dt)
+                        rec.case((name, n, c, np.dtype(dt).name), nt, None)
             # batches: one valid + one invalid row must raise; two valid rows equal their single-row values
             vs = [c for c in itertools.product(range(0, n + 1), repeat=k) if valid(name, c, n, k, min_size)]
             if vs:
@@ -148,7 +154,7 @@ def replay(inp, repo="/repo"):
     X = np.array(inp["X"], dtype=float)
     n, p = X.shape
     for name, make, k, min_size, oracle in scorers(n, p):
-        if name == inp["scorer"].split("[p=")[0]:
+        if name == inp["scorer"].split("[")[0]:
             rec = Recorder()
             sc = make().fit(X)
             cuts = np.array(inp["cuts"])
@@ -160,6 +166,7 @@ def replay(inp, repo="/repo"):
                     return {"violated": False, "detail": "ValueError"}
                 except Exception as e:
                     return {"violated": True, "detail": type(e).__name__}
-            check_one(rec, name, sc, X, n, k, min_size, oracle, cuts.tolist())
+            dt = np.uint64 if "[uint64]" in inp["scorer"] else (np.uint8 if "[uint8]" in inp["scorer"] else np.int64)
+            check_one(rec, name, sc, X, n, k, min_size, oracle, cuts.tolist(), dtype=dt)
             return {"violated": bool(rec.violations), "detail": rec.violations[0]["what"] if rec.violations else "holds"}
     return {"violated": False, "detail": "unknown scorer"}
